@@ -37,6 +37,10 @@ func enumPats(tier string, seed int) []patterns.Pat {
 
 func itoa(i int) string { return strconv.Itoa(i) }
 
+func isSystematic(p patterns.Pat) bool {
+	return p.Source == "shape:loopsucc" || p.Source == "shape:altprefix"
+}
+
 // systematicPats: the loop x successor x tail and alternation-prefix products (thinned in quick).
 func systematicPats(tier string, seed int) []patterns.Pat {
 	keep := 4
@@ -128,6 +132,12 @@ func buildSpecUnits(prop string, rtl bool) func(tier string, seed int) []Unit {
 			} else {
 				sets = []int{0, c01OptionSets[1+(i+seed)%(len(c01OptionSets)-1)]}
 			}
+			mn := maxN
+			if isSystematic(p) && tier != "thorough" {
+				// the systematic products are large: plain options and one rune less in the quick tier
+				sets = []int{0}
+				mn = maxN - 1
+			}
 			for _, o := range sets {
 				if rtl {
 					if o&(patterns.OptN|patterns.OptX|patterns.OptRE2) != 0 {
@@ -138,7 +148,7 @@ func buildSpecUnits(prop string, rtl bool) func(tier string, seed int) []Unit {
 				if !inC01Fragment(p, o) {
 					continue
 				}
-				us = append(us, unitsFor(prop, "spec", p, o, "", maxN, nil, true)...)
+				us = append(us, unitsFor(prop, "spec", p, o, "", mn, nil, true)...)
 			}
 		}
 		return us
@@ -181,7 +191,10 @@ func init() {
 					o  int
 					co string
 				}{{0, ""}, {0, "g"}, {patterns.OptRTL, ""}, {patterns.OptI, ""}} {
-					if tier != "thorough" && cfg.o != 0 && (i+seed)%4 != 0 {
+					if tier != "thorough" && cfg.o != 0 && ((i+seed)%4 != 0 || isSystematic(p)) {
+						continue
+					}
+					if tier != "thorough" && cfg.co != "" && isSystematic(p) && (i+seed)%6 != 0 {
 						continue
 					}
 					if tier != "thorough" && cfg.co != "" && (i+seed)%3 != 0 {
@@ -324,7 +337,7 @@ func init() {
 			var us []Unit
 			for i, p := range ps {
 				for k, o := range sets {
-					if tier != "thorough" && k != 0 && k != 1+(i+seed)%4 {
+					if tier != "thorough" && k != 0 && (k != 1+(i+seed)%4 || isSystematic(p)) {
 						continue
 					}
 					us = append(us, unitsFor("C05", "rewrite", p, o, "", maxN, nil, false)...)
@@ -379,7 +392,7 @@ func init() {
 						if tier != "thorough" && n == 3 {
 							continue
 						}
-						params := map[string]string{"pattern": p.Text, "options": itoa(o), "copts": "", "n": itoa(n), "lmax": "48", "ldom": "0-48", "l2dom": "1-56,100000", "key_extra": "deep"}
+						params := map[string]string{"pattern": p.Text, "options": itoa(o), "copts": "", "n": itoa(n), "lmax": "40", "ldom": "0-40", "l2dom": "1-44,100000", "key_extra": "deep", "textdom": "a-e"}
 						us = append(us, Unit{ID: fmt.Sprintf("C13/deep/%s/o%d/n%d", p.Text, o, n), Harness: "limit", PathBudget: 60000, Params: params})
 					}
 				}
@@ -509,7 +522,7 @@ func init() {
 					o  int
 					co string
 				}{{0, ""}, {0, "g"}, {patterns.OptRTL, ""}, {patterns.OptI, ""}, {patterns.OptI, "g"}} {
-					if tier != "thorough" && k > 0 && (i+seed)%4 != k-1 {
+					if tier != "thorough" && k > 0 && ((i+seed)%4 != k-1 || (isSystematic(p) && k > 1)) {
 						continue
 					}
 					us = append(us, unitsFor("C04", "facts", p, cfg.o, cfg.co, maxN, nil, false)...)
